@@ -74,6 +74,24 @@ T = {
  "C18-5": ("C18", "36187f9", "a local write whose cache Put lands after the cache was closed (Put returns nil on a closed cache)", ["C18"], "VIOLATION by VerifSysClose (mid-write)"),
  "C19-4": ("C19", "36187f9", "multi-writer log with more entries than the largest clock, then a local write (clock not above the maximum)", ["C19"], "VIOLATION (native replay) by VerifC19Step (solver model) and VerifC19History"),
  "C20-4": ("C20", "36187f9", "Connect with a context that ends, then Connect again on the same channel object", ["C20"], "VIOLATION (native replay) by VerifC20Reconnect"),
+ # round 6 (base 0e0edba)
+ "C02-5": ("C02", "0e0edba", "store closed and reopened on the same instance while a peer keeps sending heads (per-address worker keeps the first store handle)", ["C02"], "VIOLATION by VerifSysHeal (store-level close / reopen steps)"),
+ "C05-5": ("C05", "0e0edba", "cached remote head of a concurrent branch whose Lamport time is below the local head's, then restart + Load", ["C05"], "VIOLATION (native replay)"),
+ "C06-5": ("C06", "0e0edba", "two causally ordered puts whose clock times straddle a multiple of 256", ["C06"], "VIOLATION (native replay) by VerifC06ClockOrder (symbolic clock values; the solver returns 255 / 256)"),
+ "C09-5": ("C09", "0e0edba", "two databases on one instance; one becomes ready while the other has a peer", ["C09"], "VIOLATION by VerifSysTwoDBs / VerifC09Isolation"),
+ "C12-5": ("C12", "0e0edba", "a malformed head announced under a valid entry's address, then the valid entry", ["C12"], "VIOLATION (native replay) by VerifC12Heads / VerifSysMalformed with the copied-identity malformed head"),
+ "C16-5": ("C16", "0e0edba", "a replication batch that adds history below the current heads (heads unchanged)", ["C16"], "VIOLATION (native replay) by VerifC16Backfill"),
+ "C17-4": ("C17", "0e0edba", "local writers racing the end of a replication (stale heads snapshot written to _localHeads), then restart", ["C17"], "VIOLATION (interpreter-schedule, P=1) by VerifC17WritersAndReplication"),
+ "C20-5": ("C20", "0e0edba", "two watchers of one topic, one cancelled", ["C20"], "VIOLATION (native replay) by VerifC20TwoWatchers"),
+ # round 7 (base 062ac51)
+ "C01-5": ("C01", "062ac51", "two writers with equal Lamport times; the smaller-key entry replicated alone after the larger-key entry is the view's tail", ["C01", "C08"], "VIOLATION (native replay) by VerifC01Log"),
+ "C03-5": ("C03", "062ac51", "the target has verified one genuine entry of the writer; forged identity = writer's id + writer's id signature + attacker's key and voucher", ["C03"], "VIOLATION (native replay) by VerifC03CanAppend (after-genuine) and VerifC03Forged (copied id signature)"),
+ "C04-5": ("C04", "062ac51", "valid head whose refs names a foreign-database entry; Load(n) on a store holding more than n entries", ["C04"], "VIOLATION (native replay) by VerifC04ForeignChain (trimmed load)"),
+ "C07-5": ("C07", "062ac51", "PutAll containing k, then Delete(k)", ["C07"], "VIOLATION (native replay) by VerifC07Replay / VerifC07Delete"),
+ "C08-5": ("C08", "062ac51", "three writers; tie merged after the tail, then an older entry forces a rebuild", ["C08", "C01"], "VIOLATION (native replay) by VerifC01Log"),
+ "C13-5": ("C13", "062ac51", "two concurrent heads with different clock times when the snapshot is saved", ["C13"], "VIOLATION (native replay) by VerifC13Snapshot (uneven concurrent chains)"),
+ "C14-5": ("C14", "062ac51", "a write list with a repeated key or mixing * with keys", ["C14"], "VIOLATION (native replay) by VerifC14Reopen / VerifC14Injective"),
+ "C18-6": ("C18", "062ac51", "two databases opened under one manifest root with different paths; Drop one", ["C18"], "VIOLATION (native replay) by VerifC18Drop (sibling under the same root)"),
 }
 for seed, (prop, base, needs, by, note) in T.items():
     d = os.path.join(V, "seeded", seed)
